@@ -297,6 +297,12 @@ def judge_set(rec, rf, txns, rows, tmp, rnd, max_full, nsample):
 
 def judge_dominance(rec, rnd, tmp):
     rf, level, w = dominance_pair(rnd)
+    if rnd.random() < .3:
+        # function names are case-insensitive, for matching and for ranking alike
+        for r in rf.rules:
+            for fn in ('contains', 'regex', 'startswith', 'normalized', 'anyof'):
+                r.match = r.match.replace(fn + '(', rnd.choice([fn.capitalize(), fn.upper()]) + '(')
+        rec.count('dominance_pairs_with_capitalised_function_names')
     eng = O.load_engine(R.render(rf), 'most_specific')
     txn = world.txn(rnd, desc='%s STORE 42 %s' % (w, w))
     if level.startswith('length-non-ascii'):
